@@ -414,6 +414,22 @@ def run(ctx):
                               f"reduce_expr raised {ex!r}",
                               {"expr": "t2_1 * W * w * (w1 B1 + w2 B2)/B2"},
                               False)
+            if k == 0:
+                try:
+                    i_, j_ = occ[5], occ[6]
+                    a_, b_ = virt[5], virt[6]
+                    t21 = itmds["t2_1"].tensor(indices=[i_, j_, a_, b_],
+                                               return_sympy=True)
+                    for pw_ in (2, 3):
+                        Ep = Expr(G.random_coef(rng) * t21 ** pw_
+                                  * NonSymmetricTensor("w", (i_, j_, a_, b_)),
+                                  real=True, target_idx=[])
+                        add(f"reduce:pow{pw_}:t2_1", reduce_expr(Ep.copy()),
+                            Ep.copy().expand_intermediates(), [],
+                            sample={"expr": str(Ep.sympy)[:200]})
+                except Exception as ex:
+                    ctx.violation("C11:reduce-exception:pow:t2_1",
+                                  f"reduce_expr raised {ex!r}", {}, False)
             try:
                 with EQ.time_limit(120 if quick else 300):
                     red = reduce_expr(E0.copy())
